@@ -118,3 +118,18 @@ Lemma class_type_roundtrip :
                     | None => false
                     end) supported_classes = true /\ List.length supported_classes = 8.
 Proof. vm_compute. split; reflexivity. Qed.
+
+(* ---- Mesh.save -> to_file -> to_meshio: every argument reaches the parameter of the same name, the defaults agree, and the
+   data dictionaries are {**caller's, **encoded} under their own flags *)
+Lemma save_forwarding :
+  gen_to_file_passes = gen_to_meshio_params /\
+  gen_save_passes = ["self"; "filename"; "point_data"; "cell_data"]%string /\
+  gen_to_file_params = ["mesh"; "filename"; "point_data"; "cell_data"; "encode_cell_data"; "encode_point_data"]%string /\
+  gen_to_meshio_defaults = [("point_data", "None"); ("cell_data", "None"); ("encode_cell_data", "True"); ("encode_point_data", "False")]%string /\
+  gen_to_file_defaults = gen_to_meshio_defaults /\ gen_save_defaults = [("point_data", "None"); ("cell_data", "None")]%string.
+Proof. repeat split; reflexivity. Qed.
+
+Lemma gen_data_is_model : forall V ecd epd (user : option (list (string * V))) enc,
+  gen_cell_data_of_to_meshio ecd epd user enc = data_option ecd user enc /\
+  gen_point_data_of_to_meshio ecd epd user enc = data_option epd user enc.
+Proof. intros; split; reflexivity. Qed.
